@@ -60,6 +60,9 @@ type Conn struct {
 	// yielding between pieces (a slow socket).
 	MaxWrite  int
 	KeepReads bool
+	// OnData, when set, is called once (and cleared) inside the Read call that is about to hand out the next data
+	// segment, before any byte of it is copied: what the receiver's owner does while a read is pending
+	OnData func()
 }
 
 func New(steps []Step) *Conn {
@@ -125,6 +128,12 @@ func (c *Conn) Read(p []byte) (int, error) {
 			rec.Timeout = true
 			return 0, timeoutErr{}
 		}
+	}
+	if f := c.OnData; f != nil {
+		c.OnData = nil
+		c.mu.Unlock()
+		f()
+		c.mu.Lock()
 	}
 	n := copy(p, c.cur)
 	c.cur = c.cur[n:]
